@@ -134,11 +134,16 @@ def build_generator(spec, cfg, entropy_f=fixed_entropy):
         cls = openssl_class(spec)
     else:
         raise KeyError(cfg)
-    # Generator(p, a, b, G, n, entropy_f=f) raises TypeError: Generator.__new__ does not take the documented entropy_f
-    # parameter (noted in triage/C02.md).  The two construction steps are therefore called separately.
-    g = cls.__new__(cls, c.p, c.a, c.b, c.G, c.n)
-    g.__init__(c.p, c.a, c.b, c.G, c.n, entropy_f=entropy_f)
-    return g
+    # the documented constructor call.  (Until the fix recorded in known_findings/C02.json, Generator.__new__ did not
+    # take the entropy_f parameter that __init__ documents and this raised TypeError.)
+    try:
+        return cls(c.p, c.a, c.b, c.G, c.n, entropy_f=entropy_f)
+    except TypeError as ex:
+        if "entropy_f" in str(ex):
+            from vlib.core import Violation
+            raise Violation("generator:constructor-rejects-entropy_f",
+                            "Generator(p, a, b, G, n, entropy_f=f) raised TypeError: %s" % ex)
+        raise
 
 
 def get_gen(spec, cfg):
